@@ -824,12 +824,13 @@ func (p *Parser) rewriteCompundAssingment(left Expr, right Expr, opToken Token) 
 
 func assign(p *Parser, left Expr) (Expr, error) {
 	switch e := left.(type) {
-	case *ExprLiteral, *ExprArray, *ExprObject:
-		return nil, p.error(left.Token().Pos, "invalid assignment")
+	case *ExprIdentifier:
 	case *ExprBinary:
 		if e.OpToken.Tag != Dot && e.OpToken.Tag != LSquare {
 			return nil, p.error(left.Token().Pos, "invalid assignment")
 		}
+	default:
+		return nil, p.error(left.Token().Pos, "invalid assignment")
 	}
 
 	_, err := p.advance()
